@@ -356,6 +356,9 @@ def e2e_check(pid, tier, scenarios, trace_spec, corrupt, note, mc_cfgs=(), threa
                 for line in f:
                     if '"harness_error"' in line:
                         raise vlib.ToolError("harness could not set a scenario up: " + line.strip()[:300])
+                    if '"badop"' in line or '"badstep"' in line:
+                        # a step the interpreter does not know is a defect of the scenario generator, not of the code
+                        raise vlib.ToolError("scenario uses an unknown step: " + line.strip()[:300])
             total, mism, states = vlib.tlc_validate(trace, "%s-e2e%d" % (pid, run), spec=trace_spec,
                                                     cfg="E2E.cfg", chunk_lines=10**9, parallel=1)
             cov["traces_validated_against_impl"] += len(scenarios)
